@@ -113,7 +113,7 @@ CHECKS = {
     "C19": dict(
         level="model_checking", design="§5 C19", technique="TLC on MC_ResultsFile (all save sequences) + Apalache inductive argument over the same Save operator for unbounded histories (Apa_ResultsFile) + trace validation of real save_json/save/command runs with complete read-back after every call (Trace_Save)",
         text="TLC explores all sequences of up to 5 saves over 3 names x 4 entries and checks that earlier entries never change, a repeated name is a no-op and a new name adds exactly "
-             "its entry; Apalache proves base and inductive step of "never overwritten" over the same operators for any number of saves (and must fail on a mutated Save); sequences of real saves (new and repeated names, odd names, matrices of random 2-D/3-D shapes with NaN, -0.0, subnormal, huge and infinite values, metadata with "
+             "its entry; Apalache proves base and inductive step of 'never overwritten' over the same operators for any number of saves (and must fail on a mutated Save); sequences of real saves (new and repeated names, odd names, matrices of random 2-D/3-D shapes with NaN, -0.0, subnormal, huge and infinite values, metadata with "
              "Path, dates, numpy scalars, functions) are executed and after EVERY call data.json is read back through Output.from_file / get_outputs_from_file and compared by TLC with "
              "Save(previous file, name, entry) on float bit-pattern tokens; solve / greedy / best_states are run in-process and the saved matrices must be the ones the evaluation or search produced.",
         note="floats as bit-pattern tokens; metadata oracle stated in the driver; save() exercised with finite gaps and at least one revealed coalition"),
